@@ -65,6 +65,8 @@ def run(ctx):
     ok = 0
     by_target = {}
     combos = set()
+    per_file = {}          # k -> records of file k asked on its own (files the library agreed with the model on)
+    per_machine = {}
 
     def inp(path, q, syms=None):
         import base64
@@ -105,10 +107,21 @@ def run(ctx):
                                "expected": repr(want[i] if i < len(want) else None), "theorem": "ZwVerif.C18.specific_names"})
             else:
                 ok += 1
+                per_file[k] = got
+                per_machine[k] = o.machine
             # family laws on the implementation: machine-specific names hold only in their own family
             if k < 3 * len(elfsym.TARGETS):
                 laws = [("STT_ARM_TFUNC", 13, 40, "label"), ("STT_SPARC_REGISTER", 13, 2, "label"), ("STT_PARISC_MILLICODE", 13, 15, "label"),
                         ("STB_MIPS_SPLIT_COMMON", 13, 8, "binding"), ("STT_FUNC", 2, None, "label"), ("STB_GLOBAL", 1, None, "binding")]
+                if k < len(elfsym.TARGETS):
+                    cl = dwcorr.copy_laws("symbol", "symbol", ["name", "label", "binding", "visibility", "size", "value", "address"])
+                    cr_, _ = h.run_impl_robust(["Q - %s %s" % (zwcorr.hx(q), zwcorr.hx(path)) for _, q in cl])
+                    for (nm, q), r in zip(cl, cr_):
+                        if r.err and r.err.startswith("compile"):
+                            raise RuntimeError("law query does not compile: %s: %s" % (q, r.err))
+                        if not r.err and r.res:
+                            ctx.violation("%s object: law fails: %s — `%s` yields a result" % (o.machine, nm, q),
+                                          {"stream": "C18-law", "input": inp(path, q), "got": r.res[:2], "expected": []})
                 qs = ["[symbol (%s == %s) pos]" % (w, c) for c, _, _, w in laws]
                 rr, cr = h.run_impl_robust(["Q - %s %s" % (zwcorr.hx(q), zwcorr.hx(path)) for q in qs])
                 for (c, code, fam, w), r, q in zip(laws, rr, qs):
@@ -122,6 +135,75 @@ def run(ctx):
                                       % (o.machine, q, gotpos, wantpos),
                                       {"stream": "C18-family", "input": inp(path, q), "got": gotpos, "expected": wantpos,
                                        "theorem": "ZwVerif.C18.specific_never_equal_across_families"})
+        # several files in ONE query (`dwopen` over a stream of names): every file's symbols in its own machine's families, whatever
+        # file came before it — the words are built once per query and live across files
+        groups = 12 if ctx.tier == "quick" else 200
+        multi_ok = 0
+        for gk in range(groups):
+            ks = rng.sample(sorted(per_file), min(len(per_file), rng.randint(2, 3)))
+            q = "(%s) dwopen %s" % (", ".join('"%s"' % os.path.join(work, "s%d.o" % k) for k in ks), QUERY)
+            recs, crashes = h.run_impl_robust(["Q - %s" % zwcorr.hx(q)])
+            if crashes or recs[0].err:
+                ctx.violation("the library failed on several files opened in one query: %s" % (crashes or recs[0].err),
+                              {"stream": "C18-multi", "input": {"query": q, "objects_b64": [inp(os.path.join(work, "s%d.o" % k), q)["object_b64"] for k in ks]}})
+                continue
+            got = [dwcorr.parse_vals(r[r.index("["):])[0][1] for r in recs[0].res]
+            want = [r for k in ks for r in per_file[k]]
+            if got != want:
+                i = next((i for i, (a, b) in enumerate(zip(got, want)) if a != b), min(len(got), len(want)))
+                ctx.violation("files %s opened in one query: symbol #%d of the stream is reported as %r; asked on its own file it is %r"
+                              % ([per_machine[k] for k in ks], i, got[i] if i < len(got) else None, want[i] if i < len(want) else None),
+                              {"stream": "C18-multi", "input": {"query": q, "objects_b64": [inp(os.path.join(work, "s%d.o" % k), q)["object_b64"] for k in ks]},
+                               "got": repr(got[i] if i < len(got) else None), "expected": repr(want[i] if i < len(want) else None),
+                               "theorem": "ZwVerif.C18.specific_never_equal_across_families"})
+            else:
+                multi_ok += 1
+        ctx.cov["multi_file_queries_ok"] = multi_ok
+        # ar archives: one Dwarf with several modules — `symbol` walks every member's table from its first entry
+        ar_ok = 0
+        bymach = {}
+        for k in sorted(per_file):
+            bymach.setdefault(per_machine[k], []).append(k)
+        archives = [ks for ks in bymach.values() if len(ks) >= 2]
+        for ai, ks in enumerate(archives[:(6 if ctx.tier == "quick" else 40)]):
+            ks = ks[:rng.randint(2, min(4, len(ks)))]
+            apath = os.path.join(work, "a%d.a" % ai)
+            subprocess.run(["ar", "rcS", apath] + [os.path.join(work, "s%d.o" % k) for k in ks], check=True)
+            recs, crashes = h.run_impl_robust(["Q - %s %s" % (zwcorr.hx(QUERY), zwcorr.hx(apath))])
+            if crashes or recs[0].err:
+                ctx.violation("the library failed on an ar archive of %d %s objects: %s" % (len(ks), per_machine[ks[0]], crashes or recs[0].err),
+                              {"stream": "C18-archive", "input": inp(apath, QUERY)})
+                continue
+            got = [observed_spec(r)[1:] for r in (dwcorr.parse_vals(r[r.index("["):])[0][1] for r in recs[0].res)]
+            # members are modules; libdwfl reports them in some order: compare as a multiset of member tables, each contiguous
+            want_sets = [[observed_spec(r)[1:] for r in per_file[k]] for k in ks]
+            rest = list(got)
+            good = sum(len(w) for w in want_sets) == len(got)
+            for w in want_sets:
+                found = next((i for i in range(len(rest) - len(w) + 1) if rest[i:i + len(w)] == w), None) if w else 0
+                if found is None:
+                    good = False
+                    break
+                del rest[found:found + len(w)]
+            if not good:
+                ctx.violation("ar archive of %d %s objects: `symbol` yields %d entries; the members' tables hold %r entries and are not all found, "
+                              "each whole and in order" % (len(ks), per_machine[ks[0]], len(got), [len(w) for w in want_sets]),
+                              {"stream": "C18-archive", "input": inp(apath, QUERY), "got": repr(got[:6]), "expected": repr([w[:2] for w in want_sets]),
+                               "theorem": "ZwVerif.C18.symbols_complete"})
+            else:
+                ar_ok += 1
+        ctx.cov["archives_ok"] = ar_ok
+        # members for two machines in one archive: one Dwarf cannot name both families — an error, not a crash or a silent choice
+        mk = sorted(bymach)
+        if len(mk) >= 2:
+            apath = os.path.join(work, "mixed.a")
+            subprocess.run(["ar", "rcS", apath, os.path.join(work, "s%d.o" % bymach[mk[0]][0]), os.path.join(work, "s%d.o" % bymach[mk[-1]][0])], check=True)
+            recs, crashes = h.run_impl_robust(["Q - %s %s" % (zwcorr.hx("symbol label"), zwcorr.hx(apath))])
+            if crashes or not recs[0].err:
+                ctx.violation("an archive with members for machines %s and %s: `symbol label` %s"
+                              % (mk[0], mk[-1], "crashes the process: %s" % crashes if crashes else "names every type in one family without an error"),
+                              {"stream": "C18-archive", "input": inp(apath, "symbol label")})
+            ctx.cov["mixed_machine_archive"] = recs[0].err if recs and recs[0].err else "no error"
         # the repository's samples against the independent reader and readelf
         samples = sorted(set(glob.glob(os.path.join(common.REPO, "tests", "*.o")) + glob.glob(os.path.join(common.REPO, "tests", "*.out"))
                              + [os.path.join(common.REPO, "tests", f) for f in ("twocus", "dwz-partial", "a1.out", "y.o", "enum.o",
